@@ -52,6 +52,11 @@ def make_dataset(ds):
                   for i in its]
         d['B'] = [arr(ds, 'B', i).astype(np.float32) for i in its]
         d['T2'] = [(arr(ds, 'T2', i) % 3 == 0) for i in its]      # bool
+    elif ds == 5:     # no 'it' column: entry k belongs to the k-th element
+        #               of the `it` argument, in the caller's order
+        d = {'t': [0.5 * k + ds for k in range(3)]}
+        for v in VARS:
+            d[v] = [arr(ds, v, k) for k in range(3)]
     else:             # a whole column None, no time column
         its = [0, 3]
         d = {'it': list(its)}
@@ -61,13 +66,19 @@ def make_dataset(ds):
     return d
 
 
-IT_SELECT = ('all', 'second', 'last_first', 'dup')
+IT_SELECT = ('all', 'second', 'last_first', 'dup', 'extra')
+NOIT = {'all': [7, 3, 5], 'second': [3], 'last_first': [5, 7],
+        'dup': [7, 5, 7], 'extra': [2, 9, 4]}      # for dataset 5
 LEVELS = (0, 1, 12)        # 'rl=1' is a string prefix of 'rl=12'
 VAR_SELECT = ('all', 'A', 'BA')
 
 
 def it_selection(d, how):
+    if 'it' not in d:
+        return list(NOIT[how])
     its = [int(i) for i in d['it']]
+    if how == 'extra':     # one iteration the dictionary does not contain
+        return [its[1], 99]
     if how == 'all':
         return list(its)
     if how == 'second':
@@ -83,7 +94,7 @@ def var_selection(how):
 
 def ops_full():
     out = []
-    for ds in range(5):
+    for ds in range(6):
         for isel in IT_SELECT:
             for vsel in VAR_SELECT:
                 for rl in LEVELS:
@@ -97,6 +108,10 @@ def ops_reduced():
         for isel in ('all', 'second', 'last_first'):
             for vsel, rl in (('all', 1), ('A', 0), ('BA', 12)):
                 out.append(('save', ds, isel, vsel, rl))
+    for isel in ('all', 'dup', 'last_first'):
+        out.append(('save', 5, isel, 'all', 1))
+    out.append(('save', 0, 'extra', 'A', 0))
+    out.append(('save', 1, 'extra', 'all', 1))
     return out
 
 
@@ -106,6 +121,8 @@ def ops_small():
         for isel in ('all', 'second'):
             for vsel, rl in (('all', 12), ('A', 1)):
                 out.append(('save', ds, isel, vsel, rl))
+    out += [('save', 5, 'all', 'A', 1), ('save', 5, 'dup', 'all', 12),
+            ('save', 0, 'extra', 'A', 1)]
     return out
 
 
@@ -152,9 +169,13 @@ class System:
         for k in ('it', 't'):
             if k in d and k not in keys:
                 keys.append(k)
-        its = [int(i) for i in d['it']]
-        for iit in sorted(set(I)):
-            pos = its.index(iit)
+        if 'it' in d:
+            its = [int(i) for i in d['it']]
+            pairs = [(iit, its.index(iit)) for iit in sorted(set(I))
+                     if iit in its]     # absent iterations: nothing saved
+        else:
+            pairs = [(iit, pos) for pos, iit in enumerate(I)]
+        for iit, pos in pairs:
             for k in keys:
                 if d[k] is None:
                     continue
@@ -364,9 +385,9 @@ def main(tier):
     run.sample({'history': [repr(ops_full()[5]), repr(ops_full()[40])],
                 'probes': {'it': PROBE_ITS, 'vars': PROBE_VARS,
                            'rl': [0, 1]}})
-    run.assume("iterations passed to save_data are present in data['it'] "
-               "(iterations absent from the dictionary are outside the "
-               "statement)")
+    run.assume("an iteration passed to save_data that data['it'] does not "
+               "contain saves nothing (reads back None); without an 'it' "
+               "column entry k belongs to the k-th element of `it`")
     run.assume("reference semantics: array looked up by iteration VALUE in "
                "data['it']; None entries/columns skipped; later saves "
                "overwrite")
